@@ -38,7 +38,7 @@ func v1app(n *consensus.Network, h uint64) bool { return h < n.HardforkV2.Requir
 func v2app(n *consensus.Network, h uint64) bool { return h >= n.HardforkV2.AllowHeight }
 
 func run(c *vf.Ctx) {
-	c.Set("rule", "explicit-state DFS over the union alphabet; at every distinct state, for one canonical live element of every kind (v1-address SC incl. its use as the miner fee of a storage proof transaction, v2-address SC, zero-signature SC and SF, in-block ephemeral output, SF, SF at the old developer address incl. the dev-address override, v1 contract, v2 contract) every ordered pair (first use, second use) of applicable uses x every placement {same transaction, later transaction of the same block, later transaction of the same block after an in-block revision of the contract, next block with stale proof, next block with proof maintained through the update, next block presenting the contract in its revised form after a block [revision, first use], after a reorg that re-applies the first use}; plus, for every live v1 contract, its resolution (storage proof / natural expiration) followed by a next block whose SUPPLEMENT lists it as expiring again (pre-resolution proof and proof maintained through the resolving block), and the contract listed twice in the supplement of its expiration block; oracle: attack block rejected, control blocks (each use alone) accepted; a case is distinct per (network, height, element kind, first use, second use, placement)")
+	c.Set("rule", "explicit-state DFS over the union alphabet; at every distinct state, for one canonical live element of every kind (v1-address SC incl. its use as the miner fee of a storage proof transaction, v2-address SC, zero-signature SC and SF, in-block ephemeral output, SF, SF at the old developer address incl. the dev-address override, v1 contract, v2 contract) every ordered pair (first use, second use) of applicable uses x every placement {same transaction, same transaction separated by the same kind of use of another element, later transaction of the same block, later transaction of the same block after an in-block revision of the contract, next block with stale proof, next block with proof maintained through the update, next block presenting the contract in its revised form after a block [revision, first use], after a reorg that re-applies the first use}; plus, for every live v1 contract, its resolution (storage proof / natural expiration) followed by a next block whose SUPPLEMENT lists it as expiring again (pre-resolution proof and proof maintained through the resolving block), and the contract listed twice in the supplement of its expiration block; oracle: attack block rejected, control blocks (each use alone) accepted; a case is distinct per (network, height, element kind, first use, second use, placement)")
 	nets := []string{"v1-eras", "mixed", "v2-only"}
 	if !c.Quick() {
 		nets = append(nets, "v2-eph5") // (a fifth network, v1-mid, did not fit the 25-minute budget with the present attack menu: measured 1320 s with it)
@@ -64,7 +64,7 @@ func run(c *vf.Ctx) {
 		x.Run()
 		x.Report(n + "/")
 	}
-	c.RequireFeature("attack_rejected", "control_accepted", "attack:same-block", "attack:same-block-after-revision", "attack:same-tx", "attack:next-block-stale", "attack:next-block-updated", "attack:next-block-ephemeral", "attack:next-block-revised-form", "attack:same-block-alias", "attack:reorg", "attack:next-block-stale-supplement", "attack:next-block-updated-supplement", "attack:expiring-listed-twice",
+	c.RequireFeature("attack_rejected", "control_accepted", "attack:same-block", "attack:same-block-after-revision", "attack:same-tx", "attack:same-tx-separated", "attack:next-block-stale", "attack:next-block-updated", "attack:next-block-ephemeral", "attack:next-block-revised-form", "attack:same-block-alias", "attack:reorg", "attack:next-block-stale-supplement", "attack:next-block-updated-supplement", "attack:expiring-listed-twice",
 		"kind:sc-v1addr", "kind:sc-v2addr", "kind:sc-nosig", "kind:sf-nosig", "kind:sf", "kind:sf-devaddr", "kind:fc", "kind:v2fc", "kind:ephemeral")
 	c.Assume("every attack block is built by the harness' own builder: correct parent, timestamp, commitment/Merkle root, miner payout and nonce; the control experiment (same block without the second use) must be accepted, so an attack cannot be rejected merely for being badly sealed")
 }
@@ -183,7 +183,9 @@ func attacks(c *vf.Ctx, x *chain.Explorer, w *chain.World, path []string) {
 				func(n *consensus.Network, h uint64) bool { return v1app(n, h) && fc.WindowStart >= h }})
 		}
 		us = append(us, useGen{"v1proof", func(w *chain.World, tag byte) (chain.Use, bool) { return w.UseV1Proof(fce, fc) },
-			func(n *consensus.Network, h uint64) bool { return v1app(n, h) && fc.WindowStart <= h && h < fc.WindowEnd }})
+			func(n *consensus.Network, h uint64) bool {
+				return v1app(n, h) && fc.WindowStart <= h && h < fc.WindowEnd
+			}})
 		return us
 	}
 	if v1ok {
@@ -259,7 +261,7 @@ func attacks(c *vf.Ctx, x *chain.Explorer, w *chain.World, path []string) {
 
 	resolves := func(name string) bool { return name != "v1revise" && name != "v2revise" }
 
-	for _, t := range targets {
+	for ti, t := range targets {
 		for _, g1 := range t.uses {
 			if !resolves(g1.name) || !g1.app(w.Net, h) {
 				continue // a revision followed by anything is legal
@@ -341,6 +343,35 @@ func attacks(c *vf.Ctx, x *chain.Explorer, w *chain.World, path []string) {
 					// (a) same transaction
 					if m, ok := merge(w, u1, u2); ok {
 						try("same-tx", w, m)
+					}
+					// (a') same transaction, the two uses SEPARATED by the same kind of use of another element (a duplicate
+					// check that only compares neighbours): [first use, other element's use, second use]
+				sep:
+					for tj, t2 := range targets {
+						if tj == ti {
+							continue
+						}
+						for _, gx := range t2.uses {
+							if gx.name != g1.name || !gx.app(w.Net, h) {
+								continue
+							}
+							ux, okx := gx.gen(w, 3)
+							if !okx {
+								continue
+							}
+							m1, ok := merge(w, u1, ux)
+							if !ok {
+								continue
+							}
+							bm, bsm := w.BlockOfUses(m1)
+							if ok, _ := accept(x, w, bm, bsm); !ok {
+								continue // the two different elements do not combine into one transaction here
+							}
+							if m2, ok := merge(w, m1, u2); ok {
+								try("same-tx-separated", w, m2)
+								break sep
+							}
+						}
 					}
 					// (b') revision, first use, second use in three transactions of one block
 					if ur != nil {
